@@ -38,6 +38,9 @@ type OpOut struct {
 	InfoOutputs []string
 	InfoTouched bool
 
+	InfoShared  bool // the Info struct had been used by an earlier call
+	InfoPreID   int
+
 	Text string // Visualize / String output
 	CanV bool   // CanVisualizeError(err) for failed ops
 }
@@ -46,6 +49,28 @@ type Trace struct {
 	Case *Case
 	Ops  []OpOut
 	RT   *RT
+}
+
+// infoSlots holds the Info structs that several ops of a case share.
+type infoSlots struct {
+	p map[int]*dig.ProvideInfo
+	d map[int]*dig.DecorateInfo
+	i map[int]*dig.InvokeInfo
+}
+
+func renderIO(ins []*dig.Input, outs []*dig.Output) (a, b []string) {
+	for _, in := range ins {
+		a = append(a, in.String())
+	}
+	for _, o := range outs {
+		b = append(b, o.String())
+	}
+	return
+}
+
+func infoSnap(id int, ins []*dig.Input, outs []*dig.Output) string {
+	a, b := renderIO(ins, outs)
+	return fmt.Sprint(id, ins == nil, outs == nil, a, b)
 }
 
 type scopeAPI interface {
@@ -297,6 +322,13 @@ func doProvide(rt *RT, sc scopeAPI, op Op, out *OpOut) error {
 		}
 		if o.Info {
 			info = &dig.ProvideInfo{ID: sentinelInfoID}
+			if o.InfoSlot > 0 {
+				if old, ok := rt.infos.p[o.InfoSlot]; ok {
+					info, out.InfoShared = old, true
+				} else {
+					rt.infos.p[o.InfoSlot] = info
+				}
+			}
 			popts = append(popts, dig.FillProvideInfo(info))
 		}
 		if o.CB && op.F != nil {
@@ -312,17 +344,17 @@ func doProvide(rt *RT, sc scopeAPI, op Op, out *OpOut) error {
 			popts = append(popts, dig.LocationForPC(12345))
 		}
 	}
+	pre := ""
+	if info != nil {
+		pre = infoSnap(int(info.ID), info.Inputs, info.Outputs)
+		out.InfoPreID = int(info.ID)
+	}
 	err := sc.Provide(fn, popts...)
 	if info != nil {
 		out.HasInfo = true
 		out.InfoID = int(info.ID)
-		out.InfoTouched = info.ID != sentinelInfoID || info.Inputs != nil || info.Outputs != nil
-		for _, in := range info.Inputs {
-			out.InfoInputs = append(out.InfoInputs, in.String())
-		}
-		for _, o := range info.Outputs {
-			out.InfoOutputs = append(out.InfoOutputs, o.String())
-		}
+		out.InfoTouched = infoSnap(int(info.ID), info.Inputs, info.Outputs) != pre
+		out.InfoInputs, out.InfoOutputs = renderIO(info.Inputs, info.Outputs)
 	}
 	return err
 }
@@ -334,6 +366,13 @@ func doDecorate(rt *RT, sc scopeAPI, op Op, out *OpOut) error {
 	if o := op.O; o != nil {
 		if o.Info {
 			info = &dig.DecorateInfo{ID: sentinelInfoID}
+			if o.InfoSlot > 0 {
+				if old, ok := rt.infos.d[o.InfoSlot]; ok {
+					info, out.InfoShared = old, true
+				} else {
+					rt.infos.d[o.InfoSlot] = info
+				}
+			}
 			dopts = append(dopts, dig.FillDecorateInfo(info))
 		}
 		if o.CB && op.F != nil {
@@ -343,17 +382,17 @@ func doDecorate(rt *RT, sc scopeAPI, op Op, out *OpOut) error {
 			}))
 		}
 	}
+	pre := ""
+	if info != nil {
+		pre = infoSnap(int(info.ID), info.Inputs, info.Outputs)
+		out.InfoPreID = int(info.ID)
+	}
 	err := sc.Decorate(fn, dopts...)
 	if info != nil {
 		out.HasInfo = true
 		out.InfoID = int(info.ID)
-		out.InfoTouched = info.ID != sentinelInfoID || info.Inputs != nil || info.Outputs != nil
-		for _, in := range info.Inputs {
-			out.InfoInputs = append(out.InfoInputs, in.String())
-		}
-		for _, o := range info.Outputs {
-			out.InfoOutputs = append(out.InfoOutputs, o.String())
-		}
+		out.InfoTouched = infoSnap(int(info.ID), info.Inputs, info.Outputs) != pre
+		out.InfoInputs, out.InfoOutputs = renderIO(info.Inputs, info.Outputs)
 	}
 	return err
 }
@@ -364,15 +403,24 @@ func doInvoke(rt *RT, sc scopeAPI, op Op, out *OpOut) error {
 	var info *dig.InvokeInfo
 	if o := op.O; o != nil && o.Info {
 		info = &dig.InvokeInfo{}
+		if o.InfoSlot > 0 {
+			if old, ok := rt.infos.i[o.InfoSlot]; ok {
+				info, out.InfoShared = old, true
+			} else {
+				rt.infos.i[o.InfoSlot] = info
+			}
+		}
 		iopts = append(iopts, dig.FillInvokeInfo(info))
+	}
+	pre := ""
+	if info != nil {
+		pre = infoSnap(0, info.Inputs, nil)
 	}
 	err := sc.Invoke(fn, iopts...)
 	if info != nil {
 		out.HasInfo = true
-		out.InfoTouched = info.Inputs != nil
-		for _, in := range info.Inputs {
-			out.InfoInputs = append(out.InfoInputs, in.String())
-		}
+		out.InfoTouched = infoSnap(0, info.Inputs, nil) != pre
+		out.InfoInputs, _ = renderIO(info.Inputs, nil)
 	}
 	return err
 }
